@@ -10,12 +10,14 @@ pub mod c06;
 pub mod c07;
 pub mod c08;
 pub mod c09;
+pub mod c10;
 pub mod c12;
 pub mod c13;
 pub mod c14;
 pub mod c15;
 pub mod c16;
 pub mod c17;
+pub mod c18;
 pub mod c19;
 pub mod c20;
 
@@ -29,12 +31,14 @@ pub fn run(id: &str, thorough: bool) -> Option<Outcome> {
         "C07" => Some(c07::run(thorough)),
         "C08" => Some(c08::run(thorough)),
         "C09" => Some(c09::run(thorough)),
+        "C10" => Some(c10::run(thorough)),
         "C12" => Some(c12::run(thorough)),
         "C13" => Some(c13::run(thorough)),
         "C14" => Some(c14::run(thorough)),
         "C15" => Some(c15::run(thorough)),
         "C16" => Some(c16::run(thorough)),
         "C17" => Some(c17::run(thorough)),
+        "C18" => Some(c18::run(thorough)),
         "C19" => Some(c19::run(thorough)),
         "C20" => Some(c20::run(thorough)),
         _ => None,
@@ -51,12 +55,14 @@ pub fn replay(id: &str, ex: &Value) -> Option<Report> {
         "C07" => Some(c07::replay(ex)),
         "C08" => Some(c08::replay(ex)),
         "C09" => Some(c09::replay(ex)),
+        "C10" => Some(c10::replay(ex)),
         "C12" => Some(c12::replay(ex)),
         "C13" => Some(c13::replay(ex)),
         "C14" => Some(c14::replay(ex)),
         "C15" => Some(c15::replay(ex)),
         "C16" => Some(c16::replay(ex)),
         "C17" => Some(c17::replay(ex)),
+        "C18" => Some(c18::replay(ex)),
         "C19" => Some(c19::replay(ex)),
         "C20" => Some(c20::replay(ex)),
         _ => None,
